@@ -107,6 +107,21 @@ def index_probe():
             bad.append(f"t[{text}] was accepted")
         except Exception:  # pylint: disable=broad-except
             pass
+    # array sizes: a size is a positive integer; whatever else Python would let through (`True` is an int) is rejected
+    # or recorded as that integer — never as a JSON boolean
+    for text, size in (("True", True), ("False", False), ("1.0", 1.0), ("'3'", "3")):
+        try:
+            from nada_dsl import Array
+            arr = Array(SecretInteger(Input("s" + text, p)), size=size)
+        except Exception:  # pylint: disable=broad-except
+            continue
+        try:
+            mir = json.loads(json.dumps(nada_dsl_to_nada_mir([Output(arr, "o", p)])))
+        except Exception:  # pylint: disable=broad-except
+            continue
+        got = [i["type"]["Array"]["size"] for i in mir["inputs"] if isinstance(i["type"], dict)]
+        if any(type(g) is not int or g < 1 for g in got):
+            bad.append(f"Array(value, size={text}) was accepted and the MIR records the size {got[0]!r}, which is not a positive integer")
     reset_globals()
     return bad
 
